@@ -331,6 +331,8 @@ def _layout_task(task):
                     fields = {"dtype": dtname, "qtype": qname, "mode": mode, "layout": lname}
                     case = dict(task, only=[list(shape), lname, mode])
                     try:
+                        if x.numel() >= 1 << 20:
+                            num.poison(x.numel() * x.element_size(), x.numel())
                         q = _quantize(x, sc, qname, mode)
                         stats["calls"] += 1
                         res, st = judge(x, sc, q, dtname, qname, mode)
@@ -387,9 +389,14 @@ def _repeat_task(task):
             held = []
             for i in range(n):
                 xi = (base * (1.0 + i / 8.0) + (i % 5) * 0.01).to(dt)
-                held.append((xi, _quantize(xi, sc, qname, mode)))
+                qi = _quantize(xi, sc, qname, mode)
+                di = qi.dequantize()
+                held.append((xi, qi, di, di.clone()))
                 stats["calls"] += 1
-            for i, (xi, qi) in enumerate(held):
+            for i, (xi, qi, di, snap) in enumerate(held):
+                if not num.same_bits(di, snap):
+                    vs.append(violation(PID, case, dict(fields, sub="held_dequantized"), f"held_dequantized: the dequantized tensor #{i + 1} of {n} changed after later same-shaped dequantizations (mode {mode}, {dtname}, {qname})"))
+                    break
                 res, st = judge(xi, sc, qi, dtname, qname, mode, want_idem=False)
                 stats["elements"] += st.get("elements", 0)
                 for sub, mask, extra in res:
